@@ -455,7 +455,13 @@ def _renamings(labels):
     case = {nm: (nm.upper() if nm.upper() != nm else nm.lower()) + "_" for nm in names}     # case change
     exotic = ["ß", "Ärger", "é", "Ω", "ñañ", "日本", "Ж", "ź"]
     nonascii = {nm: exotic[(i * 3) % len(exotic)] + ("" if i < len(exotic) else str(i)) for i, nm in enumerate(names)}
-    return [("reverse-order", rev), ("case", case), ("non-ascii", nonascii)]
+    # mixed-case names whose ASCII order differs from their case-insensitive order
+    m1 = ["B", "a", "c", "Zebra", "d", "Echo", "f", "G2"]
+    m2 = ["Silence", "intro", "verse", "Alpha", "beta", "Coda", "d", "e"]
+    mixed1 = {nm: m1[i % len(m1)] + ("" if i < len(m1) else str(i)) for i, nm in enumerate(names)}
+    mixed2 = {nm: m2[i % len(m2)] + ("" if i < len(m2) else str(i)) for i, nm in enumerate(names)}
+    return [("reverse-order", rev), ("case", case), ("non-ascii", nonascii), ("mixed-case", mixed1),
+            ("mixed-case-2", mixed2)]
 
 
 def _rename(side, mapping):
